@@ -362,4 +362,182 @@ pub fn threshold(v: &mut Vec<Entry>) {
         let cls = format!("[{r},{n}]");
         case(vec![tt(x), tt(T::scalar_f(0.5)), tt(T::typed(dt, &[], &[3]))], cls)
     }));
+    partial_broadcast(v);
+}
+
+/// Make `t` constant along a non-empty *proper* subset of its first `nbatch`
+/// dims (all of size >= 2), so that the broadcast layout class materialises it
+/// as a partial broadcast view: stride 0 on some batch dims, distinct matrices /
+/// rows along the others.
+fn const_along_some_batch_dims(g: &mut G, t: &mut T, nbatch: usize) -> String {
+    let m = 1 + g.rng.below((1usize << nbatch) - 2); // 1 ..= 2^nbatch - 2
+    let mut tag = String::new();
+    for d in 0..nbatch {
+        if m & (1 << d) != 0 {
+            t.make_const_along(d);
+            tag.push('0');
+        } else {
+            tag.push('s');
+        }
+    }
+    tag
+}
+fn bdim(g: &mut G) -> usize {
+    2 + g.rng.below(2)
+}
+
+/// "thr/bat/..." entries: rank >= 4 operands of every operator with batch
+/// semantics, constant along a proper subset of the batch dims.
+fn partial_broadcast(v: &mut Vec<Entry>) {
+    // which operand(s) get the partially constant content: 0 = first, 1 = second, 2 = both
+    fn pick_sides(g: &mut G) -> (bool, bool) {
+        match g.rng.below(3) {
+            0 => (true, false),
+            1 => (false, true),
+            _ => (true, true),
+        }
+    }
+    for (key, op, eq) in [("thr/bat/MatMul", "MatMul", ""), ("thr/bat/Einsum", "Einsum", "abij,abjk->abik"), ("thr/bat/Einsum/bT", "Einsum", "abij,abkj->abik")] {
+        let mut b = e(key, op).num(1).io(2, 1).thr();
+        if !eq.is_empty() {
+            b = b.astr("equation", eq);
+        }
+        let bt = eq.ends_with("abkj->abik");
+        v.push(b.g(move |g| {
+            let (b1, b2, m, k, n) = (bdim(g), bdim(g), 2 + g.rng.below(3), 1 + g.rng.below(4), *g.rng.pick(&[1usize, 3, 17]));
+            let mut a = fdata(g, &[b1, b2, m, k]);
+            let sb = if bt { vec![b1, b2, n, k] } else { vec![b1, b2, k, n] };
+            let mut bb = fdata(g, &sb);
+            let (ca, cb) = pick_sides(g);
+            let ta = if ca { const_along_some_batch_dims(g, &mut a, 2) } else { "ss".into() };
+            let tb = if cb { const_along_some_batch_dims(g, &mut bb, 2) } else { "ss".into() };
+            case(vec![tt(a), tt(bb)], format!("a={ta},b={tb}"))
+        }));
+    }
+    v.push(e("thr/bat/MatMul/rank5", "MatMul").num(1).io(2, 1).thr().g(|g| {
+        let (m, k, n) = (2 + g.rng.below(2), 1 + g.rng.below(3), 1 + g.rng.below(3));
+        let mut a = fdata(g, &[2, 2, 2, m, k]);
+        let bb = fdata(g, &[2, 2, 2, k, n]);
+        let ta = const_along_some_batch_dims(g, &mut a, 3);
+        case(vec![tt(a), tt(bb)], format!("a={ta}"))
+    }));
+    v.push(e("thr/bat/MatMulInteger", "MatMulInteger").io(4, 1).dts(&[DT::U8, DT::I8]).thr().g(|g| {
+        let (b1, b2, m, k, n) = (bdim(g), bdim(g), 2 + g.rng.below(3), 1 + g.rng.below(4), 1 + g.rng.below(4));
+        let dta = g.dt;
+        let mut a = g.t_with(dta, &[b1, b2, m, k], |g| g.rng.range(0, 9) as i32);
+        let mut bb = g.t_with(DT::I8, &[b1, b2, k, n], |g| g.rng.range(-5, 5) as i32);
+        let (ca, cb) = pick_sides(g);
+        let ta = if ca { const_along_some_batch_dims(g, &mut a, 2) } else { "ss".into() };
+        let tb = if cb { const_along_some_batch_dims(g, &mut bb, 2) } else { "ss".into() };
+        case(vec![tt(a), tt(bb), In::None, In::None], format!("a={ta},b={tb}"))
+    }));
+    v.push(e("thr/bat/ms.MatMulNBits", "MatMulNBits").num(1).ms().ai("bits", 4).ai("block_size", 16).ai("K", 16).ai("N", 3).io(3, 1).thr().g(|g| {
+        let (b1, b2, m, n, bs, k) = (bdim(g), bdim(g), 2 + g.rng.below(2), 3usize, 16usize, 16usize);
+        let mut a = fdata(g, &[b1, b2, m, k]);
+        let ta = const_along_some_batch_dims(g, &mut a, 2);
+        let b = g.t_with(DT::U8, &[n, k / bs, bs / 2], |g| g.rng.range(0, 255) as i32);
+        let sc = g.t_with(DT::F32, &[n, k / bs], |g| (*g.rng.pick(&[0.5f32, 0.25, 1.0])).to_bits() as i32);
+        case(vec![tt(a), tt(b), tt(sc)], format!("a={ta}"))
+    }));
+    v.push(e("thr/bat/Attention", "Attention").num(2).io(6, 3).thr().g(|g| {
+        let (b, h, qs, ks, hd) = (bdim(g), 2usize, 1 + g.rng.below(3), 1 + g.rng.below(3), 2 + g.rng.below(3));
+        let mut q = fdata(g, &[b, h, qs, hd]);
+        let mut k = fdata(g, &[b, h, ks, hd]);
+        let mut val = fdata(g, &[b, h, ks, hd]);
+        let mut tags = vec![];
+        for t in [&mut q, &mut k, &mut val] {
+            tags.push(if g.rng.chance(1, 2) { const_along_some_batch_dims(g, t, 2) } else { "ss".into() });
+        }
+        case(vec![tt(q), tt(k), tt(val), In::None, In::None, In::None], tags.join(","))
+    }));
+    // rank-4 data operand, constant along a proper subset of its two leading dims
+    fn data4(g: &mut G, dt: DT) -> (T, String) {
+        let s = [bdim(g), bdim(g), 2 + g.rng.below(3), 2 + g.rng.below(4)];
+        let mut t = if dt == DT::F32 { fdata(g, &s) } else { g.i_range(&s, -4, 4) };
+        let tag = const_along_some_batch_dims(g, &mut t, 2);
+        (t, tag)
+    }
+    for name in ["Add", "Mul", "Sub", "Div", "Greater", "Equal"] {
+        v.push(e(&format!("thr/bat/{name}"), name).io(2, 1).dts(&[DT::F32, DT::I32]).thr().g(move |g| {
+            let (a, ta) = data4(g, g.dt);
+            let mut b = if g.dt == DT::F32 { g.f_range(&a.shape, 1.0, 4.0) } else { g.i_range(&a.shape, 1, 4) };
+            let tb = if g.rng.chance(1, 2) { const_along_some_batch_dims(g, &mut b, 2) } else { "ss".into() };
+            case(vec![tt(a), tt(b)], format!("a={ta},b={tb}"))
+        }));
+    }
+    v.push(e("thr/bat/Where", "Where").io(3, 1).dts(&[DT::F32, DT::I32]).thr().g(|g| {
+        let (x, tx) = data4(g, g.dt);
+        let mut c = g.bools(&x.shape);
+        let tc = const_along_some_batch_dims(g, &mut c, 2);
+        let y = if g.dt == DT::F32 { fdata(g, &x.shape) } else { g.i_range(&x.shape, -4, 4) };
+        case(vec![tt(c), tt(x), tt(y)], format!("c={tc},x={tx}"))
+    }));
+    for (key, op) in [
+        ("thr/bat/Relu", "Relu"), ("thr/bat/Identity", "Identity"), ("thr/bat/Transpose", "Transpose"),
+        ("thr/bat/GlobalAveragePool", "GlobalAveragePool"), ("thr/bat/GlobalMaxPool", "GlobalMaxPool"), ("thr/bat/Flatten", "Flatten"),
+    ] {
+        v.push(e(key, op).thr().g(|g| {
+            let (x, t) = data4(g, DT::F32);
+            case(vec![tt(x)], format!("x={t}"))
+        }));
+    }
+    for (key, op, axis) in [("thr/bat/Softmax", "Softmax", -1i64), ("thr/bat/Softmax/axis=1", "Softmax", 1), ("thr/bat/LogSoftmax", "LogSoftmax", -1)] {
+        v.push(e(key, op).ai("axis", axis).thr().g(|g| {
+            let (x, t) = data4(g, DT::F32);
+            case(vec![tt(x)], format!("x={t}"))
+        }));
+    }
+    for name in ["ReduceSum", "ReduceMax", "ReduceMean"] {
+        v.push(e(&format!("thr/bat/{name}"), name).ai("keepdims", 0).io(2, 1).thr().g(|g| {
+            let (x, t) = data4(g, DT::F32);
+            let axes = match g.rng.below(4) {
+                0 => tt(T::ints(&[3])),
+                1 => tt(T::ints(&[0])),
+                2 => tt(T::ints(&[1, 2])),
+                _ => In::None,
+            };
+            case(vec![tt(x), axes], format!("x={t}"))
+        }));
+    }
+    v.push(e("thr/bat/LayerNormalization", "LayerNormalization").ai("axis", -1).io(3, 1).thr().g(|g| {
+        let (x, t) = data4(g, DT::F32);
+        let n = x.shape[3];
+        let (sc, b) = (g.f_range(&[n], 1.0, 2.0), g.f_range(&[n], -1.0, 1.0));
+        case(vec![tt(x), tt(sc), tt(b)], format!("x={t}"))
+    }));
+    v.push(e("thr/bat/BatchNormalization", "BatchNormalization").io(5, 1).thr().g(|g| {
+        let (x, t) = data4(g, DT::F32);
+        let c = x.shape[1];
+        let (sc, b, m, var) = (g.f_range(&[c], 1.0, 2.0), g.f_range(&[c], -1.0, 1.0), g.f_range(&[c], -1.0, 1.0), g.f_range(&[c], 1.0, 3.0));
+        case(vec![tt(x), tt(sc), tt(b), tt(m), tt(var)], format!("x={t}"))
+    }));
+    v.push(e("thr/bat/Conv", "Conv").num(1).aints("kernel_shape", &[2, 2]).io(3, 1).thr().g(|g| {
+        let (x, t) = data4(g, DT::F32);
+        let cin = x.shape[1];
+        let w = fdata(g, &[2, cin, 2, 2]);
+        case(vec![tt(x), tt(w), In::None], format!("x={t}"))
+    }));
+    for (name, k) in [("MaxPool", 2i64), ("AveragePool", 2)] {
+        v.push(e(&format!("thr/bat/{name}"), name).aints("kernel_shape", &[k, k]).aints("strides", &[1, 1]).thr().g(|g| {
+            let (x, t) = data4(g, DT::F32);
+            case(vec![tt(x)], format!("x={t}"))
+        }));
+    }
+    v.push(e("thr/bat/Concat/axis=1", "Concat").ai("axis", 1).io(2, 1).thr().g(|g| {
+        let (x, t) = data4(g, DT::F32);
+        let mut s = x.shape.clone();
+        s[1] = 1 + g.rng.below(2);
+        let y = fdata(g, &s);
+        case(vec![tt(x), tt(y)], format!("x={t}"))
+    }));
+    v.push(e("thr/bat/Gather/axis=1", "Gather").ai("axis", 1).io(2, 1).thr().g(|g| {
+        let (x, t) = data4(g, DT::F32);
+        let d = x.shape[1] as i64;
+        let idx = g.i_range(&[2], 0, d - 1);
+        case(vec![tt(x), tt(idx)], format!("x={t}"))
+    }));
+    v.push(e("thr/bat/Slice", "Slice").io(4, 1).thr().g(|g| {
+        let (x, t) = data4(g, DT::F32);
+        case(vec![tt(x), tt(T::ints(&[1])), tt(T::ints(&[i32::MAX as i64])), tt(T::ints(&[2]))], format!("x={t}"))
+    }));
 }
